@@ -19,9 +19,8 @@ import (
 )
 
 var (
-	regMtx                    sync.RWMutex
-	unserializers             = make(map[formats.Format]native.Unserializer)
-	defaultUnserializeOptions = &native.UnserializeOptions{}
+	regMtx        sync.RWMutex
+	unserializers = make(map[formats.Format]native.Unserializer)
 )
 
 func init() {
@@ -72,16 +71,21 @@ type Sniffer interface {
 	SniffFile(path string) (formats.Format, error)
 }
 
-var defaultOptions = &Options{
-	UnserializeOptions: defaultUnserializeOptions,
-	formatOptions:      map[string]interface{}{},
+// newDefaultOptions returns a new options set loaded with the default values.
+// Every Reader gets its own copy so that options applied to one instance never
+// leak into another.
+func newDefaultOptions() *Options {
+	return &Options{
+		UnserializeOptions: &native.UnserializeOptions{},
+		formatOptions:      map[string]interface{}{},
+	}
 }
 
 func New(opts ...ReaderOption) *Reader {
 	r := &Reader{
 		sniffer: &formats.Sniffer{},
 		Storage: storage.NewFileSystem(),
-		Options: defaultOptions,
+		Options: newDefaultOptions(),
 	}
 
 	for _, opt := range opts {
@@ -159,7 +163,7 @@ func (r *Reader) detectFormat(rs io.ReadSeeker) (formats.Format, error) {
 // Retrieve reads a document from the configured storage backend using the
 // default options.
 func (r *Reader) Retrieve(id string) (*sbom.Document, error) {
-	return r.RetrieveWithOptions(id, defaultOptions)
+	return r.RetrieveWithOptions(id, r.Options)
 }
 
 // RetrieveWithOptions retrieves a document from the configured storage backend
